@@ -2,7 +2,8 @@
    damaged stream.  Only the property theorems, each closed by [exact] and followed by
    Print Assumptions.  Model: coq/C12/Reduce.v, coq/C12/Hash.v over coq/gen/ReduceParams.v. *)
 From Coq Require Import NArith List.
-From MirV Require Import gen.ReduceParams C12.Arr C12.Hash C12.Reduce C12.CodecProofs C12.DecodeProofs.
+From MirV Require Import gen.ReduceParams C12.Arr C12.Hash C12.Reduce C12.CodecProofs C12.DecodeProofs
+  C12.RoundTrip.
 Import ListNotations.
 Local Open Scope N_scope.
 
@@ -62,3 +63,24 @@ Theorem reduce_accept_integrity : forall fx i2p0 buf0 s d,
                   /\ chain d CHECK_HASH_SEED (le_value hs).
 Proof. exact decode_accept_integrity. Qed.
 Print Assumptions reduce_accept_integrity.
+
+(* LOSSLESS: decoding what the encoder wrote returns exactly the original bytes - for every input
+   list of every length (any number of 256 KiB buffers), for all initial contents of the decoder's
+   buffers.  [encode] is the model of reduce_encode with its real dictionary (hash chains, free
+   list, recycling of the oldest chain element, cost rule); it returns None only if a chain walk
+   exceeded TABLE_SIZE steps, which reduce_encode_total excludes. *)
+Theorem reduce_roundtrip : forall i2p0 buf0 data s,
+  encode data = Some s -> decode true i2p0 buf0 s = Accept data.
+Proof. exact decode_encode. Qed.
+Print Assumptions reduce_roundtrip.
+
+(* every truncation and every extension of an encoder output is rejected *)
+Theorem reduce_encoded_truncated_rejected : forall i2p0 buf0 data s k,
+  encode data = Some s -> (k < length s)%nat -> decode true i2p0 buf0 (firstn k s) = Reject.
+Proof. exact encode_truncated. Qed.
+Print Assumptions reduce_encoded_truncated_rejected.
+
+Theorem reduce_encoded_extended_rejected : forall i2p0 buf0 data s x xs,
+  encode data = Some s -> decode true i2p0 buf0 (s ++ x :: xs) = Reject.
+Proof. exact encode_extended. Qed.
+Print Assumptions reduce_encoded_extended_rejected.
